@@ -104,6 +104,15 @@ def seq_cmp_exec(rng):
             L.append("V %d %s %d%s" % (t, k, n, "".join(" %d" % x for x in el)))
             if k == "W": dup.add(t)
             seqs.append(t); t += 1
+    # empty sequences that still own storage (room reserved by resize; a first push that was refused and caught), and emptied ones
+    d, stok = define("S", [b"refused"], t); L += d; t += 1
+    for how in ("resize", "refused", "popped", "plain"):
+        for k in "AL":
+            L.append("V %d %s 0" % (t, k))
+            if how == "resize" and k == "A": L.append("hresize %d 6" % t)
+            if how == "refused": L.append("hpush %d %d" % (t, stok[0]))
+            if how == "popped": L += ["hpush %d %d" % (t, it[0]), "hpush %d %d" % (t, it[1]), "hpop %d" % t, "hpop %d" % t]
+            seqs.append(t); t += 1
     trees = []
     for _ in range(8):
         n = rng.choice([0, 1, 2, 3])
@@ -253,6 +262,21 @@ def hash_exec(rng):
             if k == "A" and rng.random() < 0.5:
                 L.append("hpush %d %d" % (t, it[0])); L.append("hpop %d" % t); L.append("hresize %d %d" % (t, n + 9) if n else "hpop %d" % t) if n else None
             g.append(t); t += 1
+        groups.append(g)
+        kinds_of[g[0]] = "seq"
+    # sequences that went through a REFUSED push (a String offered to a sequence of Ints, caught) before their last element: they
+    # are the value they would be without it - next to a cleanly built sequence that really has a 0 in that place
+    d, stok = define("S", [b"refused"], t); L += d; t += 1
+    for _ in range(3):
+        n = rng.randint(1, 4)
+        elems = [rng.choice(it[1:]) for _ in range(n)]
+        g = []
+        for k in "AL":
+            L.append("V %d %s %d%s" % (t, k, n, "".join(" %d" % e for e in elems)))
+            L.append("hpush %d %d" % (t, stok[0])); L.append("hpush %d %d" % (t, it[1]))
+            g.append(t); t += 1
+        L.append("V %d L %d%s %d %d" % (t, n + 2, "".join(" %d" % e for e in elems), it[0], it[1])); g.append(t); t += 1     # (it[0] is the Int 0)
+        L.append("V %d A %d%s %d" % (t, n + 1, "".join(" %d" % e for e in elems), it[1])); g.append(t); t += 1
         groups.append(g)
         kinds_of[g[0]] = "seq"
     L = [x for x in L if x]
